@@ -83,6 +83,8 @@ def commit_chain(ctx: Ctx) -> List[Tuple[FunctionInfo, Node, bool]]:
 
 
 def check(ctx: Ctx) -> None:
+    _CTX_REF[:] = [ctx]
+    _DELETING_CACHE.clear()
     r1(ctx)
     r2(ctx)
     r3(ctx)
@@ -113,6 +115,9 @@ def check(ctx: Ctx) -> None:
 
 # ----------------------------------------------------------------------- R1
 def r1(ctx: Ctx) -> None:
+    if not _CTX_REF or _CTX_REF[0] is not ctx:
+        _CTX_REF[:] = [ctx]
+        _DELETING_CACHE.clear()
     ctx.rule("C04.R1", "commit-point error classification: CAS conflict -> retryable conflict; any other error "
              "on a CAS / non-atomic backend -> AmbiguousCommitError; clean re-raise only under "
              "storage.atomic_write_failures, which is True only where an exception implies 'not renamed'", 4)
@@ -121,7 +126,30 @@ def r1(ctx: Ctx) -> None:
     writes = hint_write_nodes(ctx, f)
     if not writes:
         raise AnalysisError("anchor vanished: no version-hint write in _write_hint_at_commit_point")
-    for n in writes:
+    scen = hint_write_scenarios(ctx)
+    if scen is not None:
+        # decided by scenario (independent of how the try / except / if nest is laid out)
+        want = {"cas": (["write_file_cas"], ["ConcurrentModificationException"], ["AmbiguousCommitError"]),
+                "local": (["write_file"], [], ["reraise"]),
+                "plain": (["write_file"], [], ["AmbiguousCommitError"])}
+        what = {"cas": "conditional-write backend (supports_cas)", "local": "temp + rename backend (atomic_write_failures)",
+                "plain": "object store without conditional writes"}
+        for label in ("cas", "local", "plain"):
+            ops, conflict, other = scen[label]["ops"], scen[label]["conflict"], scen[label]["other"]
+            w_ops, w_conf, w_other = want[label]
+            ctx.ob("C04.R1", f, f"{what[label]}: the pointer is written with {w_ops[0]} only", writes[0], ops == w_ops,
+                   f"writes reached: {ops}" + ("" if ops == w_ops else " - on a CAS backend the pointer is only written conditionally; "
+                                              "elsewhere there is no ETag to condition on"), text=label + ":op")
+            if label == "cas":
+                ctx.ob("C04.R1", f, f"{what[label]}: a lost precondition is a clean, retryable conflict", writes[0], conflict == w_conf,
+                       f"CASConflictError is reported as {conflict}", text=label + ":conflict")
+            ctx.ob("C04.R1", f, f"{what[label]}: any other failure of the pointer write is reported as {w_other[0]}", writes[0], other == w_other,
+                   f"reported as {other}" + ("" if other == w_other else (
+                       " - temp + rename: an exception means the rename never happened, so the error must propagate unchanged (rollback + "
+                       "cleanup run); reclassifying it keeps never-committed files" if label == "local" else
+                       " - the write may have been applied before the client saw the error: reporting it as a clean failure (or "
+                       "swallowing it) makes the committer delete files the pointer may already name")), text=label + ":other")
+    for n in (writes if scen is None else []):
         op = ctx.eff.storage_op(n)
         esc, caught = ctx.eff.propagate(f, {"Exception"}, n.frames, record=False)
         ctx.ob("C04.R1", f, f"commit-point {op}: every Exception intercepted", n, not esc,
@@ -164,7 +192,7 @@ def r1(ctx: Ctx) -> None:
             ctx.ob("C04.R1", f, f"{op}: except {','.join(hcs)}", hn, not problems,
                    "non-conflict error at the commit point -> AmbiguousCommitError (or clean re-raise under "
                    "atomic_write_failures)" + ("; " + "; ".join(problems) if problems else ""))
-    for b in [b for b in g.nodes if b.kind == "branch" and b.ast is not None and "atomic_write_failures" in norm_text(b.ast)]:
+    for b in [b for b in g.nodes if scen is None and b.kind == "branch" and b.ast is not None and "atomic_write_failures" in norm_text(b.ast)]:
         t = edge_target(g, b, "true")
         if t is None:
             continue
@@ -175,7 +203,7 @@ def r1(ctx: Ctx) -> None:
                "run); reclassifying it as ambiguous keeps the never-committed metadata file and data files on disk"
                + ("" if ok else f"; raises reachable from the true edge: {[r.raised for r in rs]}"))
     # supports_cas true-branch must only reach the CAS write, never the plain write
-    for b in [b for b in g.nodes if b.kind == "branch" and b.ast is not None and "supports_cas" in norm_text(b.ast)]:
+    for b in [b for b in g.nodes if scen is None and b.kind == "branch" and b.ast is not None and "supports_cas" in norm_text(b.ast)]:
         t = edge_target(g, b, "true")
         plain = [n for n in writes if ctx.eff.storage_op(n) != "write_file_cas"]
         if t is None:
@@ -214,8 +242,54 @@ def r1(ctx: Ctx) -> None:
                    witness=[f"{wf.file}:{b.lineno} {b.text[:80]} may raise {c}" for b, c in bad[:6]] or None)
 
 
+def hint_write_scenarios(ctx: Ctx) -> Optional[Dict[str, Dict[str, object]]]:
+    """Scenario evaluation of _write_hint_at_commit_point (nothing is run) for the three kinds of backend -
+    (supports_cas, atomic_write_failures) = CAS object store (True, False), local temp+rename (False, True), plain object store
+    (False, False): which write is reached, and what a precondition failure / any other failure of it is reported as.  None when
+    a scenario cannot be decided."""
+    from .common import explore
+    f = ctx.fn("metadata_manager.MetadataManager._write_hint_at_commit_point")
+    g = ctx.cfg(f)
+    writes = hint_write_nodes(ctx, f)
+    raises = [n.id for n in g.nodes if n.kind == "raise"]
+    out: Dict[str, Dict[str, object]] = {}
+    for label, cas, atomic in (("cas", True, False), ("local", False, True), ("plain", False, False)):
+        env = {"self.storage.supports_cas": cas, "self.storage.atomic_write_failures": atomic}
+        res = explore(ctx, f, [g.entry], env, stop=[w.id for w in writes])
+        reached = {nid: store for nid, store, _a in res if nid in {w.id for w in writes}}
+        if not reached:
+            return None
+        info: Dict[str, object] = {"ops": sorted({ctx.eff.storage_op(w) or "?" for w in writes if w.id in reached})}
+        for kind, exc in (("conflict", "CASConflictError"), ("other", "OSError")):
+            outcomes = set()
+            for w in writes:
+                if w.id not in reached:
+                    continue
+                if kind == "conflict" and ctx.eff.storage_op(w) != "write_file_cas":
+                    continue
+                esc, caught = ctx.eff.propagate(f, {exc}, w.frames, record=False)
+                if esc:
+                    outcomes.add("escapes:" + exc)
+                hs = [h for h, _c in caught]
+                if not hs:
+                    continue
+                hn = next((x for x in g.nodes if x.kind == "handler" and x.ast is hs[0]), None)
+                if hn is None:
+                    return None
+                store0 = {k: v for k, v in reached[w.id].items() if isinstance(k, str)}
+                for nid, _st, _a in explore(ctx, f, [hn.id], env, stop=raises, init=dict(store0)):
+                    n_ = g.nodes[nid]
+                    outcomes.add(n_.raised if n_.kind == "raise" else "completes normally")
+            info[kind] = sorted(x or "?" for x in outcomes)
+        out[label] = info
+    return out
+
+
 # ----------------------------------------------------------------------- R2
 def r2(ctx: Ctx) -> None:
+    if not _CTX_REF or _CTX_REF[0] is not ctx:
+        _CTX_REF[:] = [ctx]
+        _DELETING_CACHE.clear()
     ctx.rule("C04.R2", "nothing fallible after the commit point: the normal continuation of every commit-point call, "
              "from the pointer write up to Transaction.commit's `return True`, is exception-escape free", 5)
     chain = commit_chain(ctx)
@@ -237,15 +311,66 @@ def r2(ctx: Ctx) -> None:
 
 # ----------------------------------------------------------------------- R3
 def _rollback_calls(ctx: Ctx, f: FunctionInfo) -> List[Node]:
+    if not _CTX_REF or _CTX_REF[0] is not ctx:
+        _CTX_REF[:] = [ctx]
+        _DELETING_CACHE.clear()
     return ctx.calls(f, name="_rollback")
 
 
+_DELETING_CACHE: Dict[int, bool] = {}
+_CTX_REF: List[Ctx] = []
+
+
 def _is_deleting(n: Node) -> bool:
+    """Does this `_rollback(...)` call delete files?  Decided by scenario: the call's arguments (a literal False / True, an enum
+    member such as _WrittenFiles.KEEP, nothing = the default) are bound to _rollback's parameters and its body is walked path-
+    sensitively - the call deletes iff a storage delete is passed on some path.  Falls back to the literal `delete_files=False`
+    test when the arguments cannot be evaluated."""
     v = kwarg(n.ast, "delete_files", 0)
-    return not is_const(v, False)
+    literal = not is_const(v, False)
+    if not _CTX_REF or not isinstance(n.ast, ast.Call):
+        return literal
+    ctx = _CTX_REF[0]
+    key = id(n.ast)
+    if key in _DELETING_CACHE:
+        return _DELETING_CACHE[key]
+    res = literal
+    try:
+        from .common import concrete_eval, explore, UNKNOWN
+        rb = ctx.fn("transaction.Transaction._rollback")
+        caller = next((f_ for f_ in ctx.prog.functions.values() if not isinstance(f_.node, ast.Lambda)
+                       and any(x is n.ast for x in ast.walk(f_.node))), None)
+        pnames = [p_ for p_ in rb.params if p_.name != "self"]
+        env: Dict[str, object] = {}
+        okb = caller is not None
+        if caller is not None:
+            cg = ctx.cfg(caller)
+            host = next((x.id for x in cg.nodes if x.ast is not None and x.kind in ("call", "stmt", "return") and any(y is n.ast for y in ast.walk(x.ast))), cg.entry)
+            for i_, a_ in enumerate(n.ast.args):
+                if i_ < len(pnames):
+                    env[pnames[i_].name] = concrete_eval(ctx, caller, a_, {}, host)
+            for k in n.ast.keywords:
+                if k.arg:
+                    env[k.arg] = concrete_eval(ctx, caller, k.value, {}, host)
+            for p_ in pnames:
+                if p_.name not in env:
+                    env[p_.name] = concrete_eval(ctx, rb, p_.default, {}, ctx.cfg(rb).entry) if p_.default is not None else UNKNOWN
+        if okb and pnames and not any(v_ is UNKNOWN for v_ in env.values()):
+            rg = ctx.cfg(rb)
+            dels = [d for d in rg.calls() if ctx.eff.storage_op(d) == "delete_file"]
+            out = explore(ctx, rb, [rg.entry], env, watch=[d.id for d in dels])
+            if out and dels:
+                res = any(store.get(("seen", d.id)) for _e, store, _a in out for d in dels)
+    except Exception:
+        res = literal
+    _DELETING_CACHE[key] = res
+    return res
 
 
 def r3(ctx: Ctx) -> None:
+    if not _CTX_REF or _CTX_REF[0] is not ctx:
+        _CTX_REF[:] = [ctx]
+        _DELETING_CACHE.clear()
     ctx.rule("C04.R3", "rollback policy: the ambiguous-outcome handler never reaches a deleting rollback and re-raises; "
              "_rollback deletes only under delete_files, and only paths this transaction wrote", 5)
     f = ctx.fn("transaction.Transaction.commit")
@@ -274,18 +399,27 @@ def r3(ctx: Ctx) -> None:
     rb = ctx.fn("transaction.Transaction._rollback")
     rg = ctx.cfg(rb)
     dels = ctx.calls(rb, storage="delete_file")
-    brs = [b for b in rg.nodes if b.kind == "branch" and b.ast is not None and "delete_files" in names_in(b.ast)]
+    switch = next((p_.name for p_ in rb.params if p_.name != "self"), "delete_files")
+    brs = [b for b in rg.nodes if b.kind == "branch" and b.ast is not None and switch in names_in(b.ast)]
     ctx.ob("C04.R3", rb, "_rollback tests delete_files", brs[0] if brs else None, bool(brs) and bool(dels),
-           "_rollback has a delete_files switch and delete sinks", nontrivial=False)
-    for b in brs:
-        fl = edge_target(rg, b, "false")  # delete_files is False
-        if fl is None:
-            continue
-        reach = reachable_from(rg, fl)
-        hit = [d for d in dels if d.id in reach]
-        ctx.ob("C04.R3", rb, "no delete reachable when delete_files is False", b, not hit,
-               "with delete_files=False neither files nor markers are deleted",
-               witness=[f"{rb.file}:{d.lineno} {d.text}" for d in hit] or None)
+           f"_rollback has a `{switch}` switch and delete sinks", nontrivial=False)
+    if switch == "delete_files":
+        for b in brs:
+            fl = edge_target(rg, b, "false")  # delete_files is False
+            if fl is None:
+                continue
+            reach = reachable_from(rg, fl)
+            hit = [d for d in dels if d.id in reach]
+            ctx.ob("C04.R3", rb, "no delete reachable when delete_files is False", b, not hit,
+                   "with delete_files=False neither files nor markers are deleted",
+                   witness=[f"{rb.file}:{d.lineno} {d.text}" for d in hit] or None)
+    else:
+        # the switch is spelled differently (an enum, a mode string): decided per call site by scenario (_is_deleting) - both
+        # modes must exist among the transaction's own calls
+        calls_ = [n for m_ in ctx.prog.cls("transaction.Transaction").methods.values() for n in _rollback_calls(ctx, m_)]
+        modes = {_is_deleting(n) for n in calls_}
+        ctx.ob("C04.R3", rb, "no delete reachable when delete_files is False", brs[0] if brs else None, modes == {True, False},
+               f"the `{switch}` switch distinguishes a deleting from a keeping rollback at the transaction's call sites: modes seen {sorted(modes)}")
     sl = ctx.slicer(rb)
     for d in dels:
         arg = d.ast.args[0] if isinstance(d.ast, ast.Call) and d.ast.args else None
@@ -331,6 +465,9 @@ def deactivators(ctx: Ctx) -> Set[str]:
 
 
 def r4(ctx: Ctx) -> None:
+    if not _CTX_REF or _CTX_REF[0] is not ctx:
+        _CTX_REF[:] = [ctx]
+        _DELETING_CACHE.clear()
     ctx.rule("C04.R4", "asynchronous BaseException (KeyboardInterrupt/SystemExit) raised once the commit-point call "
              "has been entered is intercepted in Transaction.commit by a handler that deactivates the transaction "
              "without deleting, so the context manager's __exit__ cannot run a deleting rollback", 2)
@@ -415,6 +552,9 @@ def swallow_allow_key(ctx: Ctx, f: FunctionInfo, hn: Node) -> Tuple[str, str]:
 
 
 def r5(ctx: Ctx) -> None:
+    if not _CTX_REF or _CTX_REF[0] is not ctx:
+        _CTX_REF[:] = [ctx]
+        _DELETING_CACHE.clear()
     ctx.rule("C04.R5", "no swallowing before the commit point: every except-handler on the commit path re-raises or "
              "converts; a handler that can complete normally must be in the reasoned allow-list", 12)
     fns = commit_path_functions(ctx)
@@ -447,6 +587,9 @@ def r5(ctx: Ctx) -> None:
 
 
 def r6(ctx: Ctx) -> None:
+    if not _CTX_REF or _CTX_REF[0] is not ctx:
+        _CTX_REF[:] = [ctx]
+        _DELETING_CACHE.clear()
     ctx.rule("C04.R6", "an ambiguous commit-point failure deletes nothing: on the AmbiguousCommitError route out of the commit chain "
              "no handler / finally body reaches a storage delete", 2)
     from ..flow import names_in as _names_in
